@@ -26,6 +26,7 @@ import (
 	"encoding/json"
 	"fmt"
 	"math/big"
+	"math/rand"
 	"os"
 	"os/exec"
 	"sort"
@@ -39,6 +40,7 @@ import (
 	codectypes "github.com/cosmos/cosmos-sdk/codec/types"
 	"github.com/cosmos/cosmos-sdk/crypto/keys/ed25519"
 	"github.com/cosmos/cosmos-sdk/crypto/keys/secp256k1"
+	cryptotypes "github.com/cosmos/cosmos-sdk/crypto/types"
 	storetypes "github.com/cosmos/cosmos-sdk/store/types"
 	"github.com/cosmos/cosmos-sdk/testutil/sims"
 	sdk "github.com/cosmos/cosmos-sdk/types"
@@ -48,8 +50,10 @@ import (
 	govtypes "github.com/cosmos/cosmos-sdk/x/gov/types"
 	govv1 "github.com/cosmos/cosmos-sdk/x/gov/types/v1"
 	stakingtypes "github.com/cosmos/cosmos-sdk/x/staking/types"
+	"github.com/cosmos/gogoproto/proto"
 	gethabi "github.com/ethereum/go-ethereum/accounts/abi"
 	gethcommon "github.com/ethereum/go-ethereum/common"
+	"github.com/ethereum/go-ethereum/common/hexutil"
 	gethcore "github.com/ethereum/go-ethereum/core/types"
 	"github.com/ethereum/go-ethereum/crypto"
 
@@ -74,6 +78,7 @@ import (
 	oracletypes "github.com/NibiruChain/nibiru/v2/x/oracle/types"
 	sudokeeper "github.com/NibiruChain/nibiru/v2/x/sudo/keeper"
 	sudotypes "github.com/NibiruChain/nibiru/v2/x/sudo/types"
+	sudotypesq "github.com/NibiruChain/nibiru/v2/x/sudo/types"
 	tftypes "github.com/NibiruChain/nibiru/v2/x/tokenfactory/types"
 )
 
@@ -101,6 +106,7 @@ type c01Input struct {
 	Keys   []int      `json:"keys,omitempty"`   // skeys
 	Which  int        `json:"which,omitempty"`  // abi
 	Ws     [][2]int   `json:"ws,omitempty"`     // tw: (validator id, reward weight)
+	Plain  bool       `json:"plain,omitempty"`  // diff: no replica perturbations (queries / CheckTx / restart)
 	Child  bool       `json:"child,omitempty"`  // diff: additionally run the history in a separate process
 }
 
@@ -298,7 +304,26 @@ type prevote struct {
 	rates  string
 }
 
+// perturbations of ONE replica that must never change committed results:
+//
+//	queries  — after every block the replica answers a batch of read-only ABCI queries (every custom-module gRPC route,
+//	           EthCall / EstimateGas, Simulate) that the other replicas do not see
+//	checkTx  — every tx goes through CheckTx (and sometimes ReCheckTx) before DeliverTx
+//	restart  — the application object is thrown away and re-created on the same database between two blocks
+type perturb struct {
+	queries bool
+	checkTx bool
+	restart int // restart before every block whose index % restart == restart-1 (0 = never)
+}
+
 type replica struct {
+	db          tmdb.DB
+	pt          perturb
+	blockIdx    int
+	nQueries    int
+	nQueryOK    int
+	nRestarts   int
+	nCheckTx    int
 	w           *world
 	c           *Chain
 	pending     map[int]*prevote
@@ -313,15 +338,195 @@ type replica struct {
 }
 
 func (w *world) newReplica() *replica {
-	a := app.NewNibiruApp(log.NewNopLogger(), tmdb.NewMemDB(), nil, true, sims.EmptyAppOptions{})
+	db := tmdb.NewMemDB()
+	a := app.NewNibiruApp(log.NewNopLogger(), db, nil, true, sims.EmptyAppOptions{})
 	a.InitChain(abci.RequestInitChain{ConsensusParams: sims.DefaultConsensusParams, AppStateBytes: w.gen, Time: GenesisTime, ChainId: ""})
 	a.Commit()
-	return &replica{w: w, c: &Chain{App: a, TxCfg: app.MakeEncodingConfig().TxConfig, Time: GenesisTime},
+	return &replica{w: w, db: db, c: &Chain{App: a, TxCfg: app.MakeEncodingConfig().TxConfig, Time: GenesisTime},
 		pending: map[int]*prevote{}, funtokens: map[int]gethcommon.Address{}, granted: map[[2]int]bool{}}
 }
 
 var gasPrice = big.NewInt(1_000_000_000_000)
 var fee = Unibi(5_000_000)
+
+// restartApp throws the application object away and opens a new one on the same database (a node restart)
+func (r *replica) restartApp() {
+	a := app.NewNibiruApp(log.NewNopLogger(), r.db, nil, true, sims.EmptyAppOptions{})
+	r.c.App = a
+	r.nRestarts++
+}
+
+func (r *replica) deliverBytes(bz []byte) abci.ResponseDeliverTx {
+	if r.pt.checkTx {
+		r.c.App.CheckTx(abci.RequestCheckTx{Tx: bz, Type: abci.CheckTxType_New})
+		r.nCheckTx++
+		if r.nCheckTx%3 == 0 {
+			r.c.App.CheckTx(abci.RequestCheckTx{Tx: bz, Type: abci.CheckTxType_Recheck})
+		}
+	}
+	return r.c.App.DeliverTx(abci.RequestDeliverTx{Tx: bz})
+}
+
+func (r *replica) cosmosBytes(priv cryptotypes.PrivKey, gas uint64, fee sdk.Coins, msgs ...sdk.Msg) ([]byte, error) {
+	ctx := r.c.Ctx()
+	addr := sdk.AccAddress(priv.PubKey().Address())
+	acc := r.c.App.AccountKeeper.GetAccount(ctx, addr)
+	var accNum, seq uint64
+	if acc != nil {
+		accNum, seq = acc.GetAccountNumber(), acc.GetSequence()
+	}
+	tx, err := sims.GenSignedMockTx(rand.New(rand.NewSource(1)), r.c.TxCfg, msgs, fee, gas, ctx.ChainID(), []uint64{accNum}, []uint64{seq}, priv)
+	if err != nil {
+		return nil, err
+	}
+	return r.c.TxCfg.TxEncoder()(tx)
+}
+
+func (r *replica) deliverCosmos(priv cryptotypes.PrivKey, gas uint64, fee sdk.Coins, msgs ...sdk.Msg) abci.ResponseDeliverTx {
+	bz, err := r.cosmosBytes(priv, gas, fee, msgs...)
+	if err != nil {
+		return abci.ResponseDeliverTx{Code: 9999, Log: "build: " + err.Error()}
+	}
+	return r.deliverBytes(bz)
+}
+
+func (r *replica) deliverEth(msgs ...*evm.MsgEthereumTx) abci.ResponseDeliverTx {
+	bz, err := r.c.EncodeEth(msgs...)
+	if err != nil {
+		return abci.ResponseDeliverTx{Code: 9999, Log: "encode: " + err.Error()}
+	}
+	return r.deliverBytes(bz)
+}
+
+func (r *replica) query(path string, req proto.Message) {
+	bz, err := proto.Marshal(req)
+	if err != nil {
+		return
+	}
+	res := r.c.App.Query(abci.RequestQuery{Path: path, Data: bz})
+	r.nQueries++
+	if res.Code == 0 {
+		r.nQueryOK++
+	} else if os.Getenv("C01_DEBUG") == "2" {
+		fmt.Printf("QUERYFAIL %s %.200s\n", path, res.Log)
+	}
+}
+
+// queryBatch: read-only traffic of a node that also serves clients.  Nothing here may influence block execution.
+func (r *replica) queryBatch(blockIdx int) {
+	w := r.w
+	e := w.eths[blockIdx%nEth]
+	// x/evm
+	for d := 0; d < nCoins; d++ {
+		r.query("/eth.evm.v1.Query/FunTokenMapping", &evm.QueryFunTokenMappingRequest{Token: fmt.Sprintf("ucoin%d", d)})
+		if a, ok := r.funtokens[d]; ok {
+			r.query("/eth.evm.v1.Query/FunTokenMapping", &evm.QueryFunTokenMappingRequest{Token: a.Hex()})
+			r.query("/eth.evm.v1.Query/FunTokenMapping", &evm.QueryFunTokenMappingRequest{Token: a.String()})
+			r.query("/eth.evm.v1.Query/Code", &evm.QueryCodeRequest{Address: a.Hex()})
+		}
+	}
+	r.query("/eth.evm.v1.Query/EthAccount", &evm.QueryEthAccountRequest{Address: e.EthAddr.Hex()})
+	r.query("/eth.evm.v1.Query/Balance", &evm.QueryBalanceRequest{Address: e.EthAddr.Hex()})
+	r.query("/eth.evm.v1.Query/Params", &evm.QueryParamsRequest{})
+	r.query("/eth.evm.v1.Query/BaseFee", &evm.QueryBaseFeeRequest{})
+	for k, c := range r.contracts {
+		if k < 3 {
+			r.query("/eth.evm.v1.Query/Code", &evm.QueryCodeRequest{Address: c.Hex()})
+			r.query("/eth.evm.v1.Query/Storage", &evm.QueryStorageRequest{Address: c.Hex(), Key: gethcommon.BigToHash(big.NewInt(1)).Hex()})
+		}
+	}
+	ethCall := func(to gethcommon.Address, input []byte) {
+		data := hexutil.Bytes(input)
+		args, err := json.Marshal(evm.JsonTxArgs{From: &e.EthAddr, To: &to, Data: &data})
+		if err != nil {
+			return
+		}
+		req := &evm.EthCallRequest{Args: args, GasCap: 10_000_000, ChainId: r.c.ChainID.Int64()}
+		r.query("/eth.evm.v1.Query/EthCall", req)
+		r.query("/eth.evm.v1.Query/EstimateGas", req)
+	}
+	if r.c.ChainID != nil {
+		if in, err := embeds.SmartContract_FunToken.ABI.Pack("whoAmI", e.EthAddr.Hex()); err == nil {
+			ethCall(precompile.PrecompileAddr_FunToken, in)
+		}
+		for d := 0; d < nCoins; d++ {
+			if a, ok := r.funtokens[d]; ok {
+				if in, err := embeds.SmartContract_FunToken.ABI.Pack("balance", e.EthAddr, a); err == nil {
+					ethCall(precompile.PrecompileAddr_FunToken, in)
+				}
+			}
+		}
+		if in, err := embeds.SmartContract_FunToken.ABI.Pack("bankBalance", e.EthAddr, "unibi"); err == nil {
+			ethCall(precompile.PrecompileAddr_FunToken, in)
+		}
+		if in, err := embeds.SmartContract_Oracle.ABI.Pack("queryExchangeRate", string(oraclePairs[blockIdx%len(oraclePairs)])); err == nil {
+			ethCall(precompile.PrecompileAddr_Oracle, in)
+		}
+		if len(r.pcContracts) > 0 {
+			k := r.pcContracts[blockIdx%len(r.pcContracts)]
+			if pcIn, err := embeds.SmartContract_FunToken.ABI.Pack("whoAmI", e.EthAddr.Hex()); err == nil {
+				base := gethcommon.LeftPadBytes(gethcommon.BytesToAddress(freshAddr(990000+blockIdx).Bytes()).Bytes(), 32)
+				ethCall(r.contracts[k], append(append(base, word(1)...), pcIn...))
+			}
+		}
+	}
+	// x/oracle
+	r.query("/nibiru.oracle.v1.Query/ExchangeRates", &oracletypes.QueryExchangeRatesRequest{})
+	r.query("/nibiru.oracle.v1.Query/Actives", &oracletypes.QueryActivesRequest{})
+	r.query("/nibiru.oracle.v1.Query/VoteTargets", &oracletypes.QueryVoteTargetsRequest{})
+	r.query("/nibiru.oracle.v1.Query/Params", &oracletypes.QueryParamsRequest{})
+	r.query("/nibiru.oracle.v1.Query/AggregatePrevotes", &oracletypes.QueryAggregatePrevotesRequest{})
+	r.query("/nibiru.oracle.v1.Query/AggregateVotes", &oracletypes.QueryAggregateVotesRequest{})
+	for _, p := range oraclePairs {
+		r.query("/nibiru.oracle.v1.Query/ExchangeRate", &oracletypes.QueryExchangeRateRequest{Pair: p})
+		r.query("/nibiru.oracle.v1.Query/ExchangeRateTwap", &oracletypes.QueryExchangeRateRequest{Pair: p})
+	}
+	for _, v := range w.valOps {
+		va := sdk.ValAddress(accAddr(v)).String()
+		r.query("/nibiru.oracle.v1.Query/MissCounter", &oracletypes.QueryMissCounterRequest{ValidatorAddr: va})
+		r.query("/nibiru.oracle.v1.Query/FeederDelegation", &oracletypes.QueryFeederDelegationRequest{ValidatorAddr: va})
+		r.query("/nibiru.oracle.v1.Query/AggregatePrevote", &oracletypes.QueryAggregatePrevoteRequest{ValidatorAddr: va})
+		r.query("/nibiru.oracle.v1.Query/AggregateVote", &oracletypes.QueryAggregateVoteRequest{ValidatorAddr: va})
+	}
+	// sudo, inflation, epochs, tokenfactory, devgas
+	r.query("/nibiru.sudo.v1.Query/QuerySudoers", &sudotypesq.QuerySudoersRequest{})
+	r.query("/nibiru.inflation.v1.Query/Period", &inflationtypes.QueryPeriodRequest{})
+	r.query("/nibiru.inflation.v1.Query/EpochMintProvision", &inflationtypes.QueryEpochMintProvisionRequest{})
+	r.query("/nibiru.inflation.v1.Query/SkippedEpochs", &inflationtypes.QuerySkippedEpochsRequest{})
+	r.query("/nibiru.inflation.v1.Query/CirculatingSupply", &inflationtypes.QueryCirculatingSupplyRequest{})
+	r.query("/nibiru.inflation.v1.Query/InflationRate", &inflationtypes.QueryInflationRateRequest{})
+	r.query("/nibiru.inflation.v1.Query/Params", &inflationtypes.QueryParamsRequest{})
+	r.query("/nibiru.epochs.v1.Query/EpochInfos", &epochstypes.QueryEpochInfosRequest{})
+	r.query("/nibiru.epochs.v1.Query/CurrentEpoch", &epochstypes.QueryCurrentEpochRequest{Identifier: "day"})
+	r.query("/nibiru.tokenfactory.v1.Query/Params", &tftypes.QueryParamsRequest{})
+	for _, u := range w.users {
+		r.query("/nibiru.tokenfactory.v1.Query/Denoms", &tftypes.QueryDenomsRequest{Creator: accAddr(u).String()})
+	}
+	for _, d := range r.tfDenoms {
+		r.query("/nibiru.tokenfactory.v1.Query/DenomInfo", &tftypes.QueryDenomInfoRequest{Denom: d})
+	}
+	r.query("/nibiru.devgas.v1.Query/FeeShares", &devgastypes.QueryFeeSharesRequest{Deployer: accAddr(w.users[0]).String()})
+	r.query("/nibiru.devgas.v1.Query/Params", &devgastypes.QueryParamsRequest{})
+	// Simulate a bank send of a user (runs the whole ante chain + message in simulation mode)
+	u := w.users[blockIdx%nUsers]
+	cctx := r.c.App.NewContext(true, r.c.Header) // check state: committed state between blocks
+	if acc := r.c.App.AccountKeeper.GetAccount(cctx, accAddr(u)); acc != nil {
+		msg := banktypes.NewMsgSend(accAddr(u), freshAddr(980000+blockIdx), Unibi(3))
+		tx, err := sims.GenSignedMockTx(rand.New(rand.NewSource(1)), r.c.TxCfg, []sdk.Msg{msg}, fee, 400_000, "",
+			[]uint64{acc.GetAccountNumber()}, []uint64{acc.GetSequence()}, u)
+		if err == nil {
+			if bz, err := r.c.TxCfg.TxEncoder()(tx); err == nil {
+				_, _, serr := r.c.App.Simulate(bz)
+				r.nQueries++
+				if serr == nil {
+					r.nQueryOK++
+				} else if os.Getenv("C01_DEBUG") == "2" {
+					fmt.Printf("QUERYFAIL simulate %.200s\n", serr)
+				}
+			}
+		}
+	}
+}
 
 func (r *replica) ethNonce(i int) uint64 {
 	acc := r.c.App.AccountKeeper.GetAccount(r.c.Ctx(), r.w.eths[i].NibiruAddr)
@@ -336,7 +541,7 @@ func (r *replica) ethTx(i int, to *gethcommon.Address, value *big.Int, input []b
 	if err != nil {
 		return abci.ResponseDeliverTx{Code: 9998, Log: err.Error()}
 	}
-	return r.c.DeliverEth(msg)
+	return r.deliverEth(msg)
 }
 
 // straight-line runtime: s SSTOREs of (calldata word 1 + j) into slots 1..s, then m CALLs sending 1 unibi
@@ -445,7 +650,7 @@ func (r *replica) apply(op c01Op) []abci.ResponseDeliverTx {
 		} else {
 			to = freshAddr(op.B)
 		}
-		return one(c.DeliverCosmos(from, 400_000, fee, banktypes.NewMsgSend(accAddr(from), to, Unibi(int64(op.C)))))
+		return one(r.deliverCosmos(from, 400_000, fee, banktypes.NewMsgSend(accAddr(from), to, Unibi(int64(op.C)))))
 	case "multisend": // one bank tx creating several fresh accounts
 		from := w.users[op.A%nUsers]
 		var outs []banktypes.Output
@@ -454,7 +659,7 @@ func (r *replica) apply(op c01Op) []abci.ResponseDeliverTx {
 			outs = append(outs, banktypes.NewOutput(freshAddr(id), Unibi(int64(op.C))))
 			tot += int64(op.C)
 		}
-		return one(c.DeliverCosmos(from, 800_000, fee, banktypes.NewMsgMultiSend([]banktypes.Input{banktypes.NewInput(accAddr(from), Unibi(tot))}, outs)))
+		return one(r.deliverCosmos(from, 800_000, fee, banktypes.NewMsgMultiSend([]banktypes.Input{banktypes.NewInput(accAddr(from), Unibi(tot))}, outs)))
 	case "ethsend":
 		to := gethcommon.BytesToAddress(freshAddr(op.B).Bytes())
 		val := new(big.Int).Mul(big.NewInt(int64(op.C)), big.NewInt(1_000_000_000_000))
@@ -542,7 +747,7 @@ func (r *replica) apply(op c01Op) []abci.ResponseDeliverTx {
 	case "ftcreate":
 		u := w.users[0]
 		d := op.A % nCoins
-		res := c.DeliverCosmos(u, 8_000_000, Unibi(10_000_000), &evm.MsgCreateFunToken{FromBankDenom: fmt.Sprintf("ucoin%d", d), Sender: accAddr(u).String()})
+		res := r.deliverCosmos(u, 8_000_000, Unibi(10_000_000), &evm.MsgCreateFunToken{FromBankDenom: fmt.Sprintf("ucoin%d", d), Sender: accAddr(u).String()})
 		if res.Code == 0 {
 			for _, a := range EventAttrs(res.Events, "eth.evm.v1.EventFunTokenCreated") {
 				var s string
@@ -554,7 +759,7 @@ func (r *replica) apply(op c01Op) []abci.ResponseDeliverTx {
 		return one(res)
 	case "ftconvert":
 		u := w.users[0]
-		return one(c.DeliverCosmos(u, 8_000_000, Unibi(10_000_000), &evm.MsgConvertCoinToEvm{
+		return one(r.deliverCosmos(u, 8_000_000, Unibi(10_000_000), &evm.MsgConvertCoinToEvm{
 			Sender: accAddr(u).String(), BankCoin: sdk.NewCoin(fmt.Sprintf("ucoin%d", op.A%nCoins), sdkmath.NewInt(int64(op.C))),
 			ToEthAddr: eth.EIP55Addr{Address: w.eths[op.B%nEth].EthAddr}}))
 	case "precompile":
@@ -563,6 +768,15 @@ func (r *replica) apply(op c01Op) []abci.ResponseDeliverTx {
 		var input []byte
 		var err error
 		erc20 := r.funtokens[op.C%nCoins]
+		if _, ok := r.funtokens[op.C%nCoins]; !ok && len(r.funtokens) > 0 {
+			// prefer a FunToken that exists (deterministic choice)
+			var ks []int
+			for k := range r.funtokens {
+				ks = append(ks, k)
+			}
+			sort.Ints(ks)
+			erc20 = r.funtokens[ks[op.C%len(ks)]]
+		}
 		switch op.B % 6 {
 		case 0:
 			to = precompile.PrecompileAddr_FunToken
@@ -594,7 +808,7 @@ func (r *replica) apply(op c01Op) []abci.ResponseDeliverTx {
 		period := uint64(c.Header.Height) / 4
 		var out []abci.ResponseDeliverTx
 		if p := r.pending[v]; p != nil && period == p.period+1 {
-			out = append(out, c.DeliverCosmos(key, 600_000, fee, oracletypes.NewMsgAggregateExchangeRateVote(p.salt, p.rates, accAddr(key), valAddr)))
+			out = append(out, r.deliverCosmos(key, 600_000, fee, oracletypes.NewMsgAggregateExchangeRateVote(p.salt, p.rates, accAddr(key), valAddr)))
 			delete(r.pending, v)
 		}
 		var tuples oracletypes.ExchangeRateTuples
@@ -611,7 +825,7 @@ func (r *replica) apply(op c01Op) []abci.ResponseDeliverTx {
 			}
 			salt := fmt.Sprintf("%d", (int64(v)*977+c.Header.Height*13)%10000)
 			hash := oracletypes.GetAggregateVoteHash(salt, str, valAddr)
-			out = append(out, c.DeliverCosmos(key, 600_000, fee, oracletypes.NewMsgAggregateExchangeRatePrevote(hash, accAddr(key), valAddr)))
+			out = append(out, r.deliverCosmos(key, 600_000, fee, oracletypes.NewMsgAggregateExchangeRatePrevote(hash, accAddr(key), valAddr)))
 			r.pending[v] = &prevote{period: period, salt: salt, rates: str}
 		}
 		return out
@@ -628,11 +842,11 @@ func (r *replica) apply(op c01Op) []abci.ResponseDeliverTx {
 		for _, id := range op.L {
 			cs = append(cs, contractAddrStr(id))
 		}
-		return one(c.DeliverCosmos(sender, 600_000, fee, &sudotypes.MsgEditSudoers{Action: action, Contracts: cs, Sender: accAddr(sender).String()}))
+		return one(r.deliverCosmos(sender, 600_000, fee, &sudotypes.MsgEditSudoers{Action: action, Contracts: cs, Sender: accAddr(sender).String()}))
 	case "tfcreate":
 		u := op.A % nUsers
 		sub := fmt.Sprintf("sub%d", op.B)
-		res := c.DeliverCosmos(w.users[u], 6_000_000, Unibi(10_000_000), &tftypes.MsgCreateDenom{Sender: accAddr(w.users[u]).String(), Subdenom: sub})
+		res := r.deliverCosmos(w.users[u], 6_000_000, Unibi(10_000_000), &tftypes.MsgCreateDenom{Sender: accAddr(w.users[u]).String(), Subdenom: sub})
 		if res.Code == 0 {
 			r.tfDenoms = append(r.tfDenoms, tftypes.TFDenom{Creator: accAddr(w.users[u]).String(), Subdenom: sub}.Denom().String())
 			r.tfOwner = append(r.tfOwner, u)
@@ -649,9 +863,9 @@ func (r *replica) apply(op c01Op) []abci.ResponseDeliverTx {
 		}
 		coin := sdk.NewCoin(r.tfDenoms[k], sdkmath.NewInt(int64(op.C)))
 		if op.Kind == "tfmint" {
-			return one(c.DeliverCosmos(w.users[u], 600_000, fee, &tftypes.MsgMint{Sender: accAddr(w.users[u]).String(), Coin: coin}))
+			return one(r.deliverCosmos(w.users[u], 600_000, fee, &tftypes.MsgMint{Sender: accAddr(w.users[u]).String(), Coin: coin}))
 		}
-		return one(c.DeliverCosmos(w.users[u], 600_000, fee, &tftypes.MsgBurn{Sender: accAddr(w.users[u]).String(), Coin: coin}))
+		return one(r.deliverCosmos(w.users[u], 600_000, fee, &tftypes.MsgBurn{Sender: accAddr(w.users[u]).String(), Coin: coin}))
 	case "grant":
 		g, e := op.A%nUsers, op.B%nUsers
 		exp := GenesisTime.Add(1000 * 24 * time.Hour)
@@ -659,7 +873,7 @@ func (r *replica) apply(op c01Op) []abci.ResponseDeliverTx {
 		if err != nil {
 			panic(err)
 		}
-		res := c.DeliverCosmos(w.users[g], 600_000, fee, msg)
+		res := r.deliverCosmos(w.users[g], 600_000, fee, msg)
 		if res.Code == 0 {
 			r.granted[[2]int{g, e}] = true
 		}
@@ -668,7 +882,7 @@ func (r *replica) apply(op c01Op) []abci.ResponseDeliverTx {
 		g, e := op.A%nUsers, op.B%nUsers
 		inner := banktypes.NewMsgSend(accAddr(w.users[g]), freshAddr(op.C), Unibi(7))
 		msg := authz.NewMsgExec(accAddr(w.users[e]), []sdk.Msg{inner})
-		return one(c.DeliverCosmos(w.users[e], 600_000, fee, &msg))
+		return one(r.deliverCosmos(w.users[e], 600_000, fee, &msg))
 	case "oparams": // sudo-gated oracle params edit: whitelist with many entries, in random order, with duplicates
 		sender := w.root
 		if op.B == 1 {
@@ -678,7 +892,7 @@ func (r *replica) apply(op c01Op) []abci.ResponseDeliverTx {
 		for _, id := range op.L {
 			wl = append(wl, pairPool[id%len(pairPool)])
 		}
-		return one(c.DeliverCosmos(sender, 900_000, fee, &oracletypes.MsgEditOracleParams{Sender: accAddr(sender).String(),
+		return one(r.deliverCosmos(sender, 900_000, fee, &oracletypes.MsgEditOracleParams{Sender: accAddr(sender).String(),
 			Params: &oracletypes.OracleParamsMsg{Whitelist: wl}}))
 	case "iparams": // sudo-gated inflation params edit: polynomial factors (repeated Dec) incl. repeated values
 		sender := w.root
@@ -689,7 +903,7 @@ func (r *replica) apply(op c01Op) []abci.ResponseDeliverTx {
 		for _, id := range op.L {
 			fs = append(fs, sdkmath.LegacyNewDecWithPrec(int64(id%9)*1_000_000-3_000_000, 6))
 		}
-		return one(c.DeliverCosmos(sender, 900_000, fee, &inflationtypes.MsgEditInflationParams{Sender: accAddr(sender).String(),
+		return one(r.deliverCosmos(sender, 900_000, fee, &inflationtypes.MsgEditInflationParams{Sender: accAddr(sender).String(),
 			InflationEnabled: true, PolynomialFactors: fs}))
 	case "tfmeta": // bank metadata of a tokenfactory denom with many denom units / aliases (A: 0 admin, 1 sudo, 2 stranger)
 		if len(r.tfDenoms) == 0 {
@@ -708,13 +922,13 @@ func (r *replica) apply(op c01Op) []abci.ResponseDeliverTx {
 		}
 		switch op.A % 3 {
 		case 1:
-			return one(c.DeliverCosmos(w.root, 1_500_000, fee, &tftypes.MsgSudoSetDenomMetadata{Sender: accAddr(w.root).String(), Metadata: md}))
+			return one(r.deliverCosmos(w.root, 1_500_000, fee, &tftypes.MsgSudoSetDenomMetadata{Sender: accAddr(w.root).String(), Metadata: md}))
 		case 2:
 			u := w.users[(r.tfOwner[k]+1)%nUsers]
-			return one(c.DeliverCosmos(u, 1_500_000, fee, &tftypes.MsgSetDenomMetadata{Sender: accAddr(u).String(), Metadata: md}))
+			return one(r.deliverCosmos(u, 1_500_000, fee, &tftypes.MsgSetDenomMetadata{Sender: accAddr(u).String(), Metadata: md}))
 		default:
 			u := w.users[r.tfOwner[k]]
-			return one(c.DeliverCosmos(u, 1_500_000, fee, &tftypes.MsgSetDenomMetadata{Sender: accAddr(u).String(), Metadata: md}))
+			return one(r.deliverCosmos(u, 1_500_000, fee, &tftypes.MsgSetDenomMetadata{Sender: accAddr(u).String(), Metadata: md}))
 		}
 	case "ethacl": // EVM transfer carrying an access list with many (repeated) addresses and storage keys
 		var al gethcore.AccessList
@@ -732,7 +946,7 @@ func (r *replica) apply(op c01Op) []abci.ResponseDeliverTx {
 		if err != nil {
 			return one(abci.ResponseDeliverTx{Code: 9998, Log: err.Error()})
 		}
-		return one(c.DeliverEth(msg))
+		return one(r.deliverEth(msg))
 	case "govparams": // gov proposal carrying a module params update with list-valued fields; the validators vote yes
 		auth := authtypes.NewModuleAddress(govtypes.ModuleName).String()
 		var inner sdk.Msg
@@ -755,18 +969,18 @@ func (r *replica) apply(op c01Op) []abci.ResponseDeliverTx {
 		if err != nil {
 			panic(err)
 		}
-		out := []abci.ResponseDeliverTx{c.DeliverCosmos(u, 2_000_000, fee, sp)}
+		out := []abci.ResponseDeliverTx{r.deliverCosmos(u, 2_000_000, fee, sp)}
 		if out[0].Code == 0 {
 			r.nProposals++
 			for _, v := range w.valOps {
-				out = append(out, c.DeliverCosmos(v, 600_000, fee, govv1.NewMsgVote(accAddr(v), uint64(r.nProposals), govv1.OptionYes, "")))
+				out = append(out, r.deliverCosmos(v, 600_000, fee, govv1.NewMsgVote(accAddr(v), uint64(r.nProposals), govv1.OptionYes, "")))
 			}
 		}
 		return out
 	case "delegate":
 		u := w.users[op.A%nUsers]
 		val := sdk.ValAddress(accAddr(w.valOps[op.B%nVals]))
-		return one(c.DeliverCosmos(u, 800_000, fee, stakingtypes.NewMsgDelegate(accAddr(u), val, sdk.NewCoin("unibi", sdkmath.NewInt(int64(op.C)*1_000_000)))))
+		return one(r.deliverCosmos(u, 800_000, fee, stakingtypes.NewMsgDelegate(accAddr(u), val, sdk.NewCoin("unibi", sdkmath.NewInt(int64(op.C)*1_000_000)))))
 	}
 	return none
 }
@@ -774,12 +988,15 @@ func (r *replica) apply(op c01Op) []abci.ResponseDeliverTx {
 // ------------------------------------------------------------------ differential
 
 type blockDigest struct {
-	all    string   // digest of everything the property speaks about in this block
-	parts  []string // app hash, tx results, validator updates separately (for localisation)
-	codes  []uint32
-	nvu    int
-	kinds  []string // per delivered tx: "<op kind>/ok" or "<op kind>/fail"
-	stores map[string]string
+	all      string   // digest of everything the property speaks about in this block
+	parts    []string // app hash, tx results, validator updates separately (for localisation)
+	codes    []uint32
+	nvu      int
+	preAnte  string // digest of the GasUsed values of txs rejected before the ante handler
+	nPreAnte int
+	txs      []string // per delivered tx: kind + projected result (localisation only)
+	kinds    []string // per delivered tx: "<op kind>/ok" or "<op kind>/fail"
+	stores   map[string]string
 }
 
 func (r *replica) runBlock(b c01Block, wantStores bool) blockDigest {
@@ -788,15 +1005,31 @@ func (r *replica) runBlock(b c01Block, wantStores bool) blockDigest {
 	if dt <= 0 {
 		dt = 5
 	}
+	if r.pt.restart > 0 && r.blockIdx%r.pt.restart == r.pt.restart-1 {
+		r.restartApp()
+	}
 	c.BeginBlock(time.Duration(dt) * time.Second)
 	h := sha256.New()
 	txh := sha256.New()
+	pah := sha256.New()
+	npre := 0
 	var codes []uint32
 	var kinds []string
+	var txs []string
 	for _, op := range b.Ops {
 		for _, res := range r.apply(op) {
-			fmt.Fprintf(txh, "%d|%x|%d|%d;", res.Code, res.Data, res.GasWanted, res.GasUsed)
+			if res.Code != 0 && res.GasWanted == 0 {
+				// rejected before the ante handler installed the tx gas meter: GasUsed is whatever the block's
+				// context meter has accumulated; compared on its own channel (see README, finding "pre-ante gas")
+				fmt.Fprintf(txh, "%d|%x|%d|pre-ante;", res.Code, res.Data, res.GasWanted)
+				fmt.Fprintf(pah, "%d;", res.GasUsed)
+				npre++
+			} else {
+				fmt.Fprintf(txh, "%d|%x|%d|%d;", res.Code, res.Data, res.GasWanted, res.GasUsed)
+			}
 			codes = append(codes, res.Code)
+			dh := sha256.Sum256(res.Data)
+			txs = append(txs, fmt.Sprintf("%s code=%d gasWanted=%d gasUsed=%d data=%x", op.Kind, res.Code, res.GasWanted, res.GasUsed, dh[:6]))
 			if res.Code == 0 {
 				kinds = append(kinds, op.Kind+"/ok")
 			} else {
@@ -808,6 +1041,10 @@ func (r *replica) runBlock(b c01Block, wantStores bool) blockDigest {
 		}
 	}
 	eb, appHash := c.EndBlock()
+	if r.pt.queries {
+		r.queryBatch(r.blockIdx)
+	}
+	r.blockIdx++
 	vu := sha256.New()
 	for _, u := range eb.ValidatorUpdates {
 		bz, _ := u.Marshal()
@@ -817,7 +1054,8 @@ func (r *replica) runBlock(b c01Block, wantStores bool) blockDigest {
 	for _, p := range parts {
 		h.Write([]byte(p))
 	}
-	d := blockDigest{all: hex.EncodeToString(h.Sum(nil)), parts: parts, codes: codes, kinds: kinds, nvu: len(eb.ValidatorUpdates)}
+	d := blockDigest{all: hex.EncodeToString(h.Sum(nil)), parts: parts, codes: codes, kinds: kinds, nvu: len(eb.ValidatorUpdates), txs: txs,
+		preAnte: hex.EncodeToString(pah.Sum(nil)), nPreAnte: npre}
 	if wantStores {
 		d.stores = r.storeDigests()
 	}
@@ -849,12 +1087,17 @@ func (r *replica) storeDigests() map[string]string {
 const nReplicas = 3
 
 type diffObs struct {
-	Replicas [][]int        `json:"replicas"` // per replica: id of the block digest, per block
-	Differs  []string       `json:"differs"`  // which observable / module stores differ at the first differing block
-	Kinds    map[string]int `json:"kinds"`    // replica 0: delivered txs per op kind and outcome (input distribution only)
-	NTx      int            `json:"ntx"`
-	NValUpd  int            `json:"nvalupd"` // blocks with a non-empty validator update (replica 0)
-	Child    bool           `json:"child"`   // the last row of Replicas comes from a separate process
+	Replicas   [][]int        `json:"replicas"` // per replica: id of the block digest, per block
+	Differs    []string       `json:"differs"`  // which observable / module stores differ at the first differing block
+	Kinds      map[string]int `json:"kinds"`    // replica 0: delivered txs per op kind and outcome (input distribution only)
+	NTx        int            `json:"ntx"`
+	NValUpd    int            `json:"nvalupd"`     // blocks with a non-empty validator update (replica 0)
+	PreAnteGas [][]int        `json:"preante_gas"` // per in-process replica: ids of the GasUsed of txs rejected before the ante handler
+	NPreAnte   int            `json:"npreante"`
+	Queries    [2]int         `json:"queries"`  // replica 1: read-only requests answered between blocks (sent, succeeded)
+	Restarts   int            `json:"restarts"` // replica 2: restarts from its database
+	CheckTxs   int            `json:"checktxs"` // replica 2: CheckTx / ReCheckTx calls
+	Child      bool           `json:"child"`    // the last row of Replicas comes from a separate process
 }
 
 // childDigests runs the history in a SEPARATE PROCESS (own heap layout, own map hash seeds, own
@@ -909,14 +1152,22 @@ func runDiff(w *world, in c01Input, withChild bool) diffObs {
 	for i := range reps {
 		reps[i] = w.newReplica()
 	}
-	obs := diffObs{Replicas: [][]int{}, Differs: []string{}, Kinds: map[string]int{}}
+	// replica 0 only executes blocks; replica 1 also serves queries; replica 2 sees every tx in CheckTx first and is restarted
+	// from its database every third block.  None of this may change what is committed.
+	if !in.Plain {
+		reps[1].pt = perturb{queries: true}
+		reps[2].pt = perturb{checkTx: true, restart: 3}
+	}
+	obs := diffObs{Replicas: [][]int{}, PreAnteGas: [][]int{}, Differs: []string{}, Kinds: map[string]int{}}
 	digests := make([][]string, nReplicas)
+	preAnte := make([][]string, nReplicas)
 	located := false
 	for _, b := range in.Blocks {
 		ds := make([]blockDigest, nReplicas)
 		for i, r := range reps {
 			ds[i] = r.runBlock(b, false)
 			digests[i] = append(digests[i], ds[i].all)
+			preAnte[i] = append(preAnte[i], ds[i].preAnte)
 		}
 		for _, k := range ds[0].kinds {
 			obs.Kinds[k]++
@@ -925,6 +1176,7 @@ func runDiff(w *world, in c01Input, withChild bool) diffObs {
 			obs.NValUpd++
 		}
 		obs.NTx += len(ds[0].codes)
+		obs.NPreAnte += ds[0].nPreAnte
 		if !located {
 			for i := 1; i < nReplicas; i++ {
 				if ds[i].all != ds[0].all {
@@ -933,6 +1185,13 @@ func runDiff(w *world, in c01Input, withChild bool) diffObs {
 					for p := range ds[0].parts {
 						if ds[i].parts[p] != ds[0].parts[p] {
 							obs.Differs = append(obs.Differs, names[p])
+						}
+					}
+					for t := range ds[0].txs {
+						if t < len(ds[i].txs) && ds[i].txs[t] != ds[0].txs[t] {
+							// which tx, which field: op kind and projected result on both replicas
+							obs.Differs = append(obs.Differs, fmt.Sprintf("tx#%d replica0{%s} replica%d{%s}", t, ds[0].txs[t], i, ds[i].txs[t]))
+							break
 						}
 					}
 					s0, si := reps[0].storeDigests(), reps[i].storeDigests()
@@ -949,6 +1208,9 @@ func runDiff(w *world, in c01Input, withChild bool) diffObs {
 			}
 		}
 	}
+	obs.Queries = [2]int{reps[1].nQueries, reps[1].nQueryOK}
+	obs.Restarts = reps[2].nRestarts
+	obs.CheckTxs = reps[2].nCheckTx
 	if withChild {
 		ds, err := childDigests(in)
 		if err != nil {
@@ -959,6 +1221,19 @@ func runDiff(w *world, in c01Input, withChild bool) diffObs {
 		if !located && fmt.Sprint(ds) != fmt.Sprint(digests[0]) {
 			obs.Differs = append(obs.Differs, "separate-process")
 		}
+	}
+	pids := map[string]int{}
+	for _, dl := range preAnte {
+		row := []int{}
+		for _, d := range dl {
+			id, ok := pids[d]
+			if !ok {
+				id = len(pids)
+				pids[d] = id
+			}
+			row = append(row, id)
+		}
+		obs.PreAnteGas = append(obs.PreAnteGas, row)
 	}
 	// small ids in first-appearance order: equal ids iff equal bytes
 	ids := map[string]int{}
@@ -1039,6 +1314,14 @@ func genDiff(r *Rng, opener int) c01Input {
 		}
 		if opener == 4 && b == 4 {
 			blk.Ops = append(blk.Ops, c01Op{Kind: "govparams", A: 0, B: 1, L: []int{3, 1, 4, 1, 5, 2, 6, 5, 3}}, c01Op{Kind: "govparams", A: 1, B: 2, L: []int{2, 0, 1, 2, 0, 1, 2, 0}})
+		}
+		if opener == 6 {
+			// precompile QUERY methods from txs (balance / bankBalance / whoAmI / oracle query) on FunTokens created earlier
+			if b == 0 {
+				blk.Ops = append(blk.Ops, c01Op{Kind: "ftcreate", A: 0}, c01Op{Kind: "ftcreate", A: 1}, c01Op{Kind: "ftconvert", A: 0, B: 0, C: 50})
+			} else if b < 7 {
+				blk.Ops = append(blk.Ops, c01Op{Kind: "precompile", A: b, B: 1, C: b % 2}, c01Op{Kind: "precompile", A: b + 1, B: b % 6, C: b})
+			}
 		}
 		if opener == 5 && b < 6 {
 			// unknown selectors / truncated / malformed calldata straight at each precompile
@@ -1452,7 +1735,7 @@ func TestC01(t *testing.T) {
 	rng := NewRng(cfg.Seed)
 	for i := 0; i < cfg.N; i++ {
 		opener := 0
-		if i < 5 {
+		if i < 6 {
 			opener = i + 1
 		}
 		in := genDiff(rng.Fork(), opener)
